@@ -126,8 +126,15 @@ var specC15 = &lifeSpec{
 	Tune: func(cfg *LifeCfg, s *Sim) {
 		s.TraceSteps = true
 	},
+	Pre: func(t *rapid.T, s *Sim, cfg *LifeCfg, os []Oracle) {
+		// half of the worlds have providers that are full after one or two shards of a megabyte
+		if rapid.Bool().Draw(t, "smallCapacity") {
+			cfg.Capacity = uint64(rapid.SampledFrom([]int{1_000_000, 2_000_000, 3_000_000}).Draw(t, "capacity"))
+			s.Label("world-small-capacity")
+		}
+	},
 	Nontrivial: func(s *Sim, os []Oracle) bool { return os[0].(*C15Oracle).Wrongable > 0 },
-	Weights:    map[string]int{"complete": 2, "advance": 4, "storeNew": 3, "storeHostile": 1, "seed": 1, "vstorage": 1, "migrate": 2, "resetNode": 2, "secondMigration": 2},
+	Weights:    map[string]int{"complete": 2, "advance": 4, "storeNew": 3, "storeHostile": 1, "seed": 1, "vstorage": 1, "migrate": 2, "resetNode": 2, "secondMigration": 2, "fillThenZero": 2},
 }
 
 func init() { specC15.register() }
